@@ -1513,7 +1513,7 @@ package serf
 //@   # a clock record (the only lines starting with c, e or q) is appended only once memory holds that clock value: the
 //@   # append may trigger a compaction, which writes the clocks from memory -- a record ahead of memory would be lost with
 //@   # the old file; sprintfArg reads the number back from the text (distinct numbers print differently)
-//@   requires clock_records_follow_memory [C14]: (strFirst(l) == 'c' ==> LamportTime(sprintfArg("clock: %d\n", l)) <= s.lastClock) &&
+//@   requires clock_records_follow_memory [C14,C12]: (strFirst(l) == 'c' ==> LamportTime(sprintfArg("clock: %d\n", l)) <= s.lastClock) &&
 //@       (strFirst(l) == 'e' ==> LamportTime(sprintfArg("event-clock: %d\n", l)) <= s.lastEventClock) &&
 //@       (strFirst(l) == 'q' ==> LamportTime(sprintfArg("query-clock: %d\n", l)) <= s.lastQueryClock)
 //@   # the snapshot may be rewritten from memory in here: what a leave made the recorder forget must be forgotten by now
@@ -1529,7 +1529,7 @@ package serf
 //@   # a clock record (the only lines starting with c, e or q) is appended only once memory holds that clock value: the
 //@   # append may trigger a compaction, which writes the clocks from memory -- a record ahead of memory would be lost with
 //@   # the old file; sprintfArg reads the number back from the text (distinct numbers print differently)
-//@   requires clock_records_follow_memory [C14]: (strFirst(l) == 'c' ==> LamportTime(sprintfArg("clock: %d\n", l)) <= s.lastClock) &&
+//@   requires clock_records_follow_memory [C14,C12]: (strFirst(l) == 'c' ==> LamportTime(sprintfArg("clock: %d\n", l)) <= s.lastClock) &&
 //@       (strFirst(l) == 'e' ==> LamportTime(sprintfArg("event-clock: %d\n", l)) <= s.lastEventClock) &&
 //@       (strFirst(l) == 'q' ==> LamportTime(sprintfArg("query-clock: %d\n", l)) <= s.lastQueryClock)
 //@   # the snapshot may be rewritten from memory in here: what a leave made the recorder forget must be forgotten by now
